@@ -2418,9 +2418,10 @@ func (s *Server) serveConnCounted(c net.Conn, countConcurrency bool) error {
 				br = acquireReader(ctx)
 			}
 
-			// If this is a keep-alive connection we want to try and read the first bytes
-			// within the idle time.
-			if connRequestNum > 1 {
+			// Wait for the first byte of the request before reporting
+			// StateActive. On a keep-alive connection the first byte is
+			// read within the idle time.
+			{
 				var b []byte
 				b, err = br.Peek(1)
 				if len(b) == 0 {
